@@ -120,7 +120,8 @@ def rule_faults():
     F.append(("not_null", with_item({"$not": None})))
     F.append(("deref_no_main", with_item({"mov": [{"$deref": {"constant_offset": "0x8"}}]})))
     F.append(("deref_empty", with_item({"mov": [{"$deref": {}}]})))
-    for t in (-1, {"min": -1, "max": 2}, {"min": 0, "max": -2}, {"min": 3, "max": 1}):
+    for t in (-1, {"min": -1, "max": 2}, {"min": 0, "max": -2}, {"min": 3, "max": 1}, -1000, {"min": 5000, "max": 2000}, {"min": 1001, "max": 1000},
+              {"min": 100000, "max": 99999}, {"min": -100000, "max": 5}):
         F.append((f"times_{t}_inside", with_item({"nop": {"times": t}})))
         F.append((f"times_{t}_sibling", with_item({"$or": ["nop", "ret"], "times": t})))
     F.append(("times_str", with_item({"nop": {"times": "two"}})))
